@@ -747,6 +747,12 @@ func (r *Relay) disconnected(n network.Network, c network.Conn) {
 	r.constraints.cleanupPeer(p)
 	r.mx.Unlock()
 
+	if ok {
+		// The peer may still have a limited connection, in which case the connection
+		// manager keeps its entry: take back the tag the reservation added.
+		r.host.ConnManager().UntagPeer(p, "relay-reservation")
+	}
+
 	if ok && r.metricsTracer != nil {
 		r.metricsTracer.ReservationClosed(1)
 	}
